@@ -45,6 +45,13 @@
 #include <sys/wait.h>
 #include <unistd.h>
 
+#ifdef VERIF_COV
+extern "C" void __gcov_dump(void);
+#define VERIF_COV_DUMP() __gcov_dump()
+#else
+#define VERIF_COV_DUMP() ((void)0)
+#endif
+
 namespace verif
 {
   inline std::string json_escape(const std::string& s)
@@ -193,6 +200,7 @@ namespace verif
         if(dn >= 0) { dup2(dn, 2); if(_only < 0) dup2(dn, 1); }
         alarm((unsigned)timeout_s);
         fn();
+        VERIF_COV_DUMP();
         _exit(0);
       }
       int st = 0;
@@ -393,6 +401,7 @@ namespace verif
         body(c);
         c.write_results();
         fflush(stdout);
+        VERIF_COV_DUMP();
         _exit(0);
       }
       x.pid = p;
